@@ -277,6 +277,12 @@ func genC07(c *w1Case, r *simrt.Rng) {
 }
 
 func genC08(c *w1Case, r *simrt.Rng) {
+	if r.Chance(0.12) {
+		// two sub-handlers of one device report the same axis code (sticks and touchpad of the shipped PS4 file), both
+		// emulate keys
+		genTwinAxes(c, r, []string{"key", "key", "key1"})
+		return
+	}
 	kinds := [][]string{{"key"}, {"key1"}, {"key", "key1"}}[r.Intn(3)]
 	o := genOpts{nKeys: [2]int{1, 3}, nMaps: [2]int{1, 1}, notePool: []int{30, 90}, actions: []string{"octave_up", "octave_down", "semitone_up", "semitone_down", "channel_up", "channel_down"}, exitLen: -1,
 		defaults: r.Chance(0.5), axes: r.Range(1, 3), axisKinds: kinds, handlers: 1, edgeNotes: r.Chance(0.4)}
